@@ -195,7 +195,7 @@ func (w *tnWorld) close() {
 		w.linkDown()
 	}
 	if w.lnB != nil {
-		_ = w.lnB.Close()
+		w.closeListener()
 		w.lnB = nil
 	}
 	if w.proxy != nil {
@@ -227,6 +227,17 @@ func (w *tnWorld) startListener() {
 		return
 	}
 	w.failf("sim.harness", "no loopback port for the TCPCLv4 listener")
+}
+
+// closeListener stops B's listener without waiting for it: its accept loop starts the passive client of every
+// connection it has accepted one after the other, and a connection that died in the meantime holds it for the 15 s of
+// TCPCLv4's start-up limit each. A listener that is being left is not worth that wait.
+func (w *tnWorld) closeListener() {
+	ln := w.lnB
+	go func() {
+		defer func() { _ = recover() }()
+		_ = ln.Close()
+	}()
 }
 
 func (w *tnWorld) bHasSenderTo(peer bpv7.EndpointID) bool {
@@ -401,7 +412,7 @@ func (w *tnWorld) apply(op tnOp) {
 		w.linkDown()
 		w.restarts++
 		if x == 1 && w.lnB != nil {
-			_ = w.lnB.Close()
+			w.closeListener()
 			w.lnB = nil
 		}
 		w.n[x].app.flush()
